@@ -142,27 +142,31 @@ Proof.
   - apply H0.
 Qed.
 
-(* programs that stay inside the run labelled (nest, c): balanced, whatever lies below on the stack *)
+(* programs that stay inside the run whose context carries (nest, c) — a sub-pipeline run or a direct sub-resolution
+   inside it: balanced, whatever lies below on the stack *)
 Definition balc {A} (v6 : bool) (nest : nat) (c : cx) (p : prog A) : Prop :=
-  forall st, bal v6 (mk_sl nest c, st) (mk_sl nest c, st) p.
+  forall l st, sl_nest l = nest -> sl_cx l = c -> bal v6 (l, st) (l, st) p.
 
 Section Balc.
   Variable v6 : bool.
   Variable nest : nat.
   Variable c : cx.
   Lemma balc_ret {A} : forall a : A, balc v6 nest c (Ret a).
-  Proof. intros a st. apply b_ret. Qed.
+  Proof. intros a l st _ _. apply b_ret. Qed.
   Lemma balc_choose {A} : forall n (k : nat -> prog A), (forall i, (i <= n)%nat -> balc v6 nest c (k i)) -> balc v6 nest c (Choose n k).
-  Proof. intros n k H st. apply b_choose. intros i Hi. apply H. exact Hi. Qed.
+  Proof. intros n k H l st Hn Hc. apply b_choose. intros i Hi. apply H; assumption. Qed.
   Lemma balc_out_x {A} : forall be (k : prog A) kerr, balc v6 nest c k -> (forall e, balc v6 nest c (kerr e)) -> balc v6 nest c (DebitOut be (Exchange k) kerr).
-  Proof. intros be k kerr H1 H2 st. apply b_out; [apply b_exch; apply H1|intros e; apply H2]. Qed.
+  Proof. intros be k kerr H1 H2 l st Hn Hc. apply b_out; [apply b_exch; apply H1; assumption|intros e; apply H2; assumption]. Qed.
   Lemma balc_enf {A} : forall (k : res -> prog A), (forall e, balc v6 nest c (k e)) -> balc v6 nest c (EnfErr k).
-  Proof. intros k H st. apply b_enf. intros e. apply H. Qed.
+  Proof. intros k H l st Hn Hc. apply b_enf. intros e. apply H; assumption. Qed.
   Lemma balc_bind {A B} : forall (p : prog A) (f : A -> prog B), balc v6 nest c p -> (forall a, balc v6 nest c (f a)) -> balc v6 nest c (bind p f).
-  Proof. intros p f H1 H2 st. eapply bal_bind; [apply H1|intros a; apply H2]. Qed.
+  Proof. intros p f H1 H2 l st Hn Hc. eapply bal_bind; [apply H1; assumption|intros a; apply H2; assumption]. Qed.
   Lemma balc_if {A} : forall (b : bool) (p q : prog A), (b = true -> balc v6 nest c p) -> balc v6 nest c q -> balc v6 nest c (if b then p else q).
   Proof. intros [|] p q H1 H2; auto. Qed.
 End Balc.
+
+Lemma cx_eqb_refl : forall c, cx_eqb c c = true.
+Proof. intros c. unfold cx_eqb. rewrite !Bool.eqb_reflx, !Nat.eqb_refl. reflexivity. Qed.
 
 (* ---- exchange, lookup: no sub-runs at all *)
 Definition kbal (v6 : bool) (nest : nat) (c : cx) (ok : option (nat -> prog xout)) : Prop :=
@@ -201,26 +205,32 @@ Proof.
     apply balc_choose. intros [|i] _; [|exact IH]. apply balc_bind; [apply stragglers_balc|intros; apply balc_ret].
 Qed.
 
-(* ---- resolve and the rest of one pipeline run, given the nested queryer *)
+(* ---- NS-address walks through any queryer *)
+Lemma ns_lookups_balc_gen : forall v6 nest c (q : cx -> prog reply) cc s h,
+  balc v6 nest c (q cc) -> balc v6 nest c (ns_lookups q cc s h).
+Proof.
+  intros v6 nest c q cc s h Hq. induction h as [|h IH]; cbn; [apply balc_ret|].
+  apply balc_bind; [exact Hq|]. intros r. destruct r; try exact IH. destruct s; [apply balc_ret|exact IH].
+Qed.
+
+(* ---- resolve and the rest of one pipeline run, given the three queryers *)
 Section WithQueryer.
   Variable maxdepth qmin : nat.
   Variable v6 : bool.
   Variable Smax Fmax : nat.
-  Variable nq : cx -> prog reply.
+  Variable nq nq0 : cx -> prog reply.
+  Variable vq : cx -> prog vres.
   Variable nest : nat.                       (* queryerDepthKey of the run we are in *)
   (* a nested query is balanced when its context is a legitimate child of ours *)
   Hypothesis nq_balc : forall c cc, child_cx_ok v6 c cc = true -> balc v6 nest c (nq cc).
-
-  Lemma eqb_refl_nat : forall n : nat, (n =? n)%nat = true. Proof. intros. apply Nat.eqb_refl. Qed.
+  (* the first query of a detached walk is balanced under any run (IPv6Access only) *)
+  Hypothesis nq0_balc : v6 = true -> forall c, balc v6 nest c (nq0 cx_fresh).
+  (* validation stays inside the run it validates for *)
+  Hypothesis vq_balc : forall c, balc v6 nest c (vq c).
 
   Lemma child_ns : forall c, child_cx_ok v6 c (nsl_cx c) = true.
   Proof.
     intros c. unfold child_cx_ok, nsl_cx. cbn. rewrite !Nat.eqb_refl, Bool.eqb_reflx. cbn.
-    rewrite !Bool.orb_true_r. reflexivity.
-  Qed.
-  Lemma child_v6 : forall c, v6 = true -> child_cx_ok v6 c (v6_cx c) = true.
-  Proof.
-    intros c ->. unfold child_cx_ok, v6_cx. cbn. rewrite !Nat.eqb_refl. cbn.
     rewrite !Bool.orb_true_r. reflexivity.
   Qed.
   Lemma child_dname : forall c, (N.of_nat (cx_dname c) <? max_dname_depth) = true ->
@@ -236,10 +246,10 @@ Section WithQueryer.
   Qed.
 
   Lemma ns_lookups_balc : forall c cc s h, child_cx_ok v6 c cc = true -> balc v6 nest c (ns_lookups nq cc s h).
-  Proof.
-    intros c cc s h Hc. induction h as [|h IH]; cbn; [apply balc_ret|].
-    apply balc_bind; [apply nq_balc; exact Hc|]. intros r. destruct r; try exact IH. destruct s; [apply balc_ret|exact IH].
-  Qed.
+  Proof. intros c cc s h Hc. apply ns_lookups_balc_gen. apply nq_balc. exact Hc. Qed.
+
+  Lemma validated_balc : forall c k, balc v6 nest c k -> balc v6 nest c (validated vq c k).
+  Proof. intros c k Hk. unfold validated. apply balc_bind; [apply vq_balc|]. intros []; try apply balc_ret. exact Hk. Qed.
 
   Lemma answer_step_balc : forall c, balc v6 nest c (answer_step nq c).
   Proof.
@@ -249,31 +259,33 @@ Section WithQueryer.
 
   Lemma resolve_balc : forall c k, Acc rlt k -> forall depth nomin unch lvl n (a : Acc rlt (rkey depth nomin unch lvl)),
     k = rkey depth nomin unch lvl ->
-    balc v6 nest c (resolve_acc qmin v6 Smax Fmax nq c depth nomin unch lvl n a).
+    balc v6 nest c (resolve_acc qmin v6 Smax Fmax nq nq0 vq c depth nomin unch lvl n a).
   Proof.
     intros c k Hk. induction Hk as [k _ IH]. intros depth nomin unch lvl n a ->.
     assert (REC : forall d' nm' u' l' n' a', rlt (rkey d' nm' u' l') (rkey depth nomin unch lvl) ->
-                  balc v6 nest c (resolve_acc qmin v6 Smax Fmax nq c d' nm' u' l' n' a')).
+                  balc v6 nest c (resolve_acc qmin v6 Smax Fmax nq nq0 vq c d' nm' u' l' n' a')).
     { intros d' nm' u' l' n' a' p. eapply IH; [exact p|reflexivity]. }
     clear IH. rewrite resolve_acc_eq. unfold resolve_F.
     apply balc_bind; [apply lookup_balc|]. intros [ | | | | ].
     - (* LResp *)
       apply balc_choose. intros [|[|cls]] _.
       + destruct (inspectb _) as [E|E]; [|apply balc_ret]. apply REC. apply ob_level; exact E.
-      + destruct (inspectb _) as [E|E]; [|apply answer_step_balc]. apply REC. apply ob_level; exact E.
+      + destruct (inspectb _) as [E|E]; [|apply validated_balc; apply answer_step_balc]. apply REC. apply ob_level; exact E.
       + apply balc_choose. intros [|[|[|[|[|[|sub]]]]]] _; try apply balc_ret.
         * destruct (inspectb _) as [E|E]; [|apply balc_ret]. apply REC. apply ob_level; exact E.
+        * apply validated_balc. apply balc_ret.
         * destruct (inspectb _) as [E|E]; [|apply balc_ret]. apply balc_choose. intros n' _.
           apply REC. eapply ob_parent; exact E.
         * destruct (inspectb _) as [E|E]; [|apply balc_ret]. apply balc_choose. intros n' _. apply balc_choose. intros l' Hl'.
           apply REC. apply ob_descend; exact E.
         * destruct (inspectb _) as [E|E]; [|apply balc_ret]. apply balc_choose. intros l' Hl'.
           apply REC. apply ob_penalty; exact E.
-        * apply balc_choose. intros h _. apply balc_bind; [apply ns_lookups_balc; apply child_ns|]. intros [rr|]; [apply balc_ret|].
+        * apply validated_balc.
+          apply balc_choose. intros h _. apply balc_bind; [apply ns_lookups_balc; apply child_ns|]. intros [rr|]; [apply balc_ret|].
           apply balc_choose. intros [|has] _.
           -- destruct (inspectb _) as [E|E]; [|apply balc_ret]. apply REC. apply ob_level; exact E.
           -- apply balc_bind.
-             ++ apply balc_if; [intros Ev|apply balc_ret]. apply balc_choose. intros h6 _. apply ns_lookups_balc. apply child_v6. exact Ev.
+             ++ apply balc_if; [intros Ev|apply balc_ret]. apply balc_choose. intros h6 _. apply ns_lookups_balc_gen. apply nq0_balc. exact Ev.
              ++ intros _. destruct (inspectb _) as [E|E]; [|apply balc_ret]. apply balc_choose. intros n' _. apply balc_choose. intros l' Hl'.
                 apply REC. apply ob_descend; exact E.
     - apply balc_ret.
@@ -288,7 +300,7 @@ Section WithQueryer.
     - destruct (inspectb _) as [E|E]; [|apply balc_ret]. apply REC. apply ob_nomin; exact E.
   Qed.
 
-  Lemma handle_balc : forall c, balc v6 nest c (handle maxdepth qmin v6 Smax Fmax nq c).
+  Lemma handle_balc : forall c, balc v6 nest c (handle maxdepth qmin v6 Smax Fmax nq nq0 vq c).
   Proof.
     intros c. unfold handle. apply balc_enf. intros []; try apply balc_ret.
     apply balc_choose. intros l0 Hl0. apply balc_choose. intros n0 _.
@@ -309,7 +321,7 @@ Section WithQueryer.
   Lemma write_failure_balc : forall c b, balc v6 nest c (write_failure c b).
   Proof. intros. unfold write_failure. apply balc_enf. intros []; apply balc_ret. Qed.
 
-  Lemma pipeline_balc : forall c, balc v6 nest c (pipeline maxdepth qmin v6 Smax Fmax nq c).
+  Lemma pipeline_balc : forall c, balc v6 nest c (pipeline maxdepth qmin v6 Smax Fmax nq nq0 vq c).
   Proof.
     intros c. unfold pipeline. apply balc_choose. intros [|hit] _.
     - unfold pipeline_miss. apply balc_bind; [apply handle_balc|].
@@ -322,49 +334,159 @@ Section WithQueryer.
   Qed.
 End WithQueryer.
 
-(* ---- Query: one more level of nesting per query, up to maxQueryerRecursion *)
-Lemma query_balc : forall maxdepth qmin v6 Smax Fmax q, (q <= N.to_nat max_queryer_recursion)%nat ->
-  forall cpar c, child_cx_ok v6 cpar c = true ->
-  balc v6 (N.to_nat max_queryer_recursion - q) cpar (query maxdepth qmin v6 Smax Fmax q c).
+(* ---- validation sub-queries: direct sub-resolutions stay inside the run they validate for (Resolver.subQuery does
+   not pass the sub-pipeline and does not touch queryerDepthKey) *)
+Section ValidatorBal.
+  Variable maxdepth qmin : nat.
+  Variable v6 : bool.
+  Variable Smax Fmax G : nat.
+  Variable nq nq0 : cx -> prog reply.
+  Variable nest : nat.
+  Hypothesis nq_balc : forall c cc, child_cx_ok v6 c cc = true -> balc v6 nest c (nq cc).
+  Hypothesis nq0_balc : v6 = true -> forall c, balc v6 nest c (nq0 cx_fresh).
+
+  Lemma subq_balc : forall inner c, (forall cc, balc v6 nest cc (inner cc)) ->
+    balc v6 nest c (subq maxdepth qmin v6 Smax Fmax nq nq0 nest inner c).
+  Proof.
+    intros inner c Hi. unfold subq. apply balc_choose. intros [|hit] _; [apply balc_ret|].
+    intros l st Hn Hc. apply b_int; [|intros; apply b_ret].
+    apply b_sub.
+    - unfold child_ok. cbn [sl_direct sl_nest sl_cx]. rewrite Hn, Hc, Nat.eqb_refl, cx_eqb_refl. cbn.
+      rewrite Bool.orb_true_r. reflexivity.
+    - apply b_choose. intros l0 _. apply b_choose. intros n0 _.
+      eapply bal_bind.
+      + unfold resolve. eapply (resolve_balc qmin v6 Smax Fmax nq nq0 inner nest nq_balc nq0_balc Hi c); [apply rlt_wf|reflexivity|reflexivity|reflexivity].
+      + intros r. apply b_end. apply b_enf. intros []; try apply b_ret. destruct r; try apply b_ret.
+        apply b_choose. intros [|i] _; apply b_ret.
+  Qed.
+
+  Lemma subqs_balc : forall inner k c, (forall cc, balc v6 nest cc (inner cc)) ->
+    balc v6 nest c (subqs maxdepth qmin v6 Smax Fmax nq nq0 nest inner k c).
+  Proof.
+    intros inner k c Hi. induction k as [|k IH]; cbn [subqs]; [apply balc_ret|].
+    apply balc_bind; [apply subq_balc; exact Hi|]. intros []; try apply balc_ret. exact IH.
+  Qed.
+
+  Lemma vstep_balc : forall vsame vless lab c, (forall cc, balc v6 nest cc (vsame cc)) -> (forall cc, balc v6 nest cc (vless cc)) ->
+    balc v6 nest c (vstep maxdepth qmin v6 Smax Fmax nq nq0 nest vsame vless lab c).
+  Proof.
+    intros vsame vless lab c Hs Hl. unfold vstep. apply balc_choose. intros k _. apply subqs_balc.
+    intros cc. apply balc_choose. intros [|i] _; auto.
+  Qed.
+
+  Lemma vrep_of_balc : forall vless lab, (forall cc, balc v6 nest cc (vless cc)) ->
+    forall rep c, balc v6 nest c (vrep_of maxdepth qmin v6 Smax Fmax nq nq0 nest vless lab rep c).
+  Proof.
+    intros vless lab Hl rep. induction rep as [|r IH]; intros c; cbn [vrep_of]; apply vstep_balc; auto.
+    intros cc. apply balc_ret.
+  Qed.
+
+  Lemma vlab_balc : forall lab rep c, balc v6 nest c (vlab maxdepth qmin v6 Smax Fmax G nq nq0 nest lab rep c).
+  Proof.
+    induction lab as [|l IH]; intros rep c; cbn [vlab]; apply vrep_of_balc; auto.
+    intros cc. apply balc_ret.
+  Qed.
+End ValidatorBal.
+
+(* ---- Query: one more level of nesting per query, up to maxQueryerRecursion; a detached generation starts from nesting 1 *)
+Lemma maxQ_pos : (1 <= N.to_nat max_queryer_recursion)%nat.
+Proof. vm_compute. lia. Qed.
+
+Lemma queryg_bal : forall maxdepth qmin v6 Smax Fmax Lmax G gen q, (q <= N.to_nat max_queryer_recursion)%nat ->
+  forall cur c, match q with O => True | S q' => child_ok v6 cur (mk_sl (N.to_nat max_queryer_recursion - q') c) = true end ->
+  forall st, bal v6 (cur, st) (cur, st) (queryg maxdepth qmin v6 Smax Fmax Lmax G gen q c).
 Proof.
-  intros maxdepth qmin v6 Smax Fmax q. induction q as [|q IH]; intros Hq cpar c Hc; cbn [query]; [apply balc_ret|].
-  intros st. apply b_int; [|intros; apply b_ret].
-  apply b_sub.
-  - unfold child_ok. cbn [sl_nest sl_cx]. rewrite Hc.
-    replace (N.to_nat max_queryer_recursion - q)%nat with (S (N.to_nat max_queryer_recursion - S q)) by lia.
-    rewrite Nat.eqb_refl. cbn [andb]. rewrite Bool.andb_true_r. apply Nat.leb_le. lia.
-  - eapply bal_bind.
-    + apply (pipeline_balc maxdepth qmin v6 Smax Fmax (query maxdepth qmin v6 Smax Fmax q) (N.to_nat max_queryer_recursion - q)).
-      intros c0 cc Hcc. apply IH; [lia|exact Hcc].
+  intros maxdepth qmin v6 Smax Fmax Lmax G gen. induction gen as [gen IHg] using lt_wf_ind.
+  induction q as [|q IH]; intros Hq cur c Hc st.
+  - destruct gen; cbn; apply b_ret.
+  - assert (E : queryg maxdepth qmin v6 Smax Fmax Lmax G gen (S q) c =
+                DebitInt (cx_be c)
+                  (SubRun (mk_sl (N.to_nat max_queryer_recursion - q) c)
+                     (bind (pipeline maxdepth qmin v6 Smax Fmax (queryg maxdepth qmin v6 Smax Fmax Lmax G gen q)
+                              (detached maxdepth qmin v6 Smax Fmax Lmax G gen)
+                              (vlab maxdepth qmin v6 Smax Fmax G (queryg maxdepth qmin v6 Smax Fmax Lmax G gen q)
+                                    (detached maxdepth qmin v6 Smax Fmax Lmax G gen) (N.to_nat max_queryer_recursion - q) Lmax G) c)
+                        (fun r => SubEnd (EnfErr (fun e => match e with ROk => Ret r | e' => Ret (ReplyWork e' true) end)))))
+                  (fun e => Ret (ReplyWork e true))) by (destruct gen; reflexivity).
+    rewrite E. clear E.
+    set (nest := (N.to_nat max_queryer_recursion - q)%nat).
+    assert (NQ : forall c0 cc, child_cx_ok v6 c0 cc = true -> balc v6 nest c0 (queryg maxdepth qmin v6 Smax Fmax Lmax G gen q cc)).
+    { intros c0 cc Hcc l0 st0 Hn0 Hc0. apply IH; [lia|].
+      destruct q as [|q'']; [exact I|]. unfold child_ok. cbn [sl_nest sl_cx sl_direct negb andb]. rewrite Hn0, Hc0, Hcc. unfold nest.
+      replace (N.to_nat max_queryer_recursion - q'')%nat with (S (N.to_nat max_queryer_recursion - S q'')) by lia.
+      rewrite Nat.eqb_refl. cbn [andb]. rewrite Bool.andb_true_r.
+      replace (S (N.to_nat max_queryer_recursion - S q'') <=? N.to_nat max_queryer_recursion)%nat with true; [reflexivity|].
+      symmetry. apply Nat.leb_le. lia. }
+    assert (NQ0 : v6 = true -> forall c0, balc v6 nest c0 (detached maxdepth qmin v6 Smax Fmax Lmax G gen cx_fresh)).
+    { intros Ev c0 l0 st0 _ _. destruct gen as [|g']; cbn [detached]; [apply b_ret|].
+      pose proof maxQ_pos as Hpos.
+      replace (N.to_nat max_queryer_recursion) with (S (N.to_nat max_queryer_recursion - 1)) at 1 by lia.
+      apply IHg; [lia|lia|].
+      unfold child_ok, detached_root. cbn [sl_nest sl_cx sl_direct negb]. rewrite Ev.
+      replace (N.to_nat max_queryer_recursion - (N.to_nat max_queryer_recursion - 1))%nat with 1%nat by lia.
+      cbn. rewrite Bool.orb_true_r. reflexivity. }
+    apply b_int; [|intros; apply b_ret].
+    apply b_sub; [exact Hc|].
+    eapply bal_bind.
+    + apply (pipeline_balc maxdepth qmin v6 Smax Fmax _ _ _ nest NQ NQ0); [|reflexivity|reflexivity].
+      intros c0. apply vlab_balc; assumption.
     + intros r. apply b_end. apply b_enf. intros []; apply b_ret.
 Qed.
 
-Lemma client_balc : forall maxdepth qmin v6 Smax Fmax c, balc v6 0 c (client maxdepth qmin v6 Smax Fmax c).
+Lemma client_balc : forall maxdepth qmin v6 Smax Fmax Lmax G gen c, balc v6 0 c (client maxdepth qmin v6 Smax Fmax Lmax G gen c).
 Proof.
-  intros. unfold client.
-  apply (pipeline_balc maxdepth qmin v6 Smax Fmax (query maxdepth qmin v6 Smax Fmax (N.to_nat max_queryer_recursion)) 0).
-  intros c0 cc Hcc.
-  replace 0%nat with (N.to_nat max_queryer_recursion - N.to_nat max_queryer_recursion)%nat by lia.
-  apply query_balc; [lia|exact Hcc].
+  intros. unfold client. pose proof maxQ_pos as Hpos.
+  assert (NQ : forall c0 cc, child_cx_ok v6 c0 cc = true ->
+               balc v6 0 c0 (queryg maxdepth qmin v6 Smax Fmax Lmax G gen (N.to_nat max_queryer_recursion) cc)).
+  { intros c0 cc Hcc l0 st0 Hn0 Hc0.
+    replace (N.to_nat max_queryer_recursion) with (S (N.to_nat max_queryer_recursion - 1)) at 1 by lia.
+    apply queryg_bal; [lia|]. unfold child_ok. cbn [sl_nest sl_cx sl_direct negb andb]. rewrite Hn0, Hc0, Hcc.
+    replace (N.to_nat max_queryer_recursion - (N.to_nat max_queryer_recursion - 1))%nat with 1%nat by lia.
+    cbn. reflexivity. }
+  assert (NQ0 : v6 = true -> forall c0, balc v6 0 c0 (detached maxdepth qmin v6 Smax Fmax Lmax G gen cx_fresh)).
+  { intros Ev c0 l0 st0 _ _. destruct gen as [|g']; cbn [detached]; [apply b_ret|].
+    replace (N.to_nat max_queryer_recursion) with (S (N.to_nat max_queryer_recursion - 1)) at 1 by lia.
+    apply queryg_bal; [lia|]. unfold child_ok, detached_root. cbn [sl_nest sl_cx sl_direct negb]. rewrite Ev.
+    replace (N.to_nat max_queryer_recursion - (N.to_nat max_queryer_recursion - 1))%nat with 1%nat by lia.
+    cbn. rewrite Bool.orb_true_r. reflexivity. }
+  apply (pipeline_balc maxdepth qmin v6 Smax Fmax _ _ _ 0 NQ NQ0).
+  intros c0. apply vlab_balc; assumption.
 Qed.
 
-Lemma client_call_tree_lemma : forall maxdepth qmin v6 Smax Fmax c adv w,
-  tree_run v6 (mk_sl 0 c) [] (trace adv (client maxdepth qmin v6 Smax Fmax c) w) = Some (mk_sl 0 c, []).
+Lemma client_call_tree_lemma : forall maxdepth qmin v6 Smax Fmax Lmax G gen c adv w,
+  tree_run v6 (mk_sl 0 c) [] (trace adv (client maxdepth qmin v6 Smax Fmax Lmax G gen c) w) = Some (mk_sl 0 c, []).
 Proof.
-  intros. apply (bal_tree_run v6 (mk_sl 0 c, []) (mk_sl 0 c, [])). apply client_balc.
+  intros. apply (bal_tree_run v6 (mk_sl 0 c, []) (mk_sl 0 c, [])). apply client_balc; reflexivity.
 Qed.
 
-(* what a passed tree check means for the depth counters: every sub-run that starts has a nesting of at
-   most maxQueryerRecursion, and it can only have been started by a chase below maxCnameChaseDepth, a
-   DNAME follow-up below maxDnameDepth, or a nameserver-address lookup *)
+(* an observer who learns each sub-run's parent directly sees only legitimate (parent, child) pairs *)
+Lemma tree_run_pairs : forall v6 tr cur st s', tree_run v6 cur st tr = Some s' ->
+  forallb (pair_ok v6) (pairs_of cur st tr) = true.
+Proof.
+  intros v6 tr. induction tr as [|e tr IH]; intros cur st s' H; cbn in *; [reflexivity|].
+  destruct e as [o i|l o i|].
+  - eapply IH; eauto.
+  - destruct (child_ok v6 cur l) eqn:E; [|discriminate]. cbn. rewrite E. cbn. eapply IH; eauto.
+  - destruct st as [|p st']; [discriminate|]. eapply IH; eauto.
+Qed.
+
+Lemma client_pairs_lemma : forall maxdepth qmin v6 Smax Fmax Lmax G gen c adv w,
+  forallb (pair_ok v6) (pairs_of (mk_sl 0 c) [] (trace adv (client maxdepth qmin v6 Smax Fmax Lmax G gen c) w)) = true.
+Proof. intros. eapply tree_run_pairs. apply client_call_tree_lemma. Qed.
+
+(* what a legitimate step means for the depth counters: every sub-run that starts has a nesting of at most
+   maxQueryerRecursion, and it can only have been started by a chase below maxCnameChaseDepth, a DNAME follow-up below
+   maxDnameDepth, a nameserver-address lookup, or as the first query of a detached walk (nesting 1, counters 0) *)
 Lemma child_ok_caps : forall v6 par ch, child_ok v6 par ch = true ->
-  (N.of_nat (sl_nest ch) <= max_queryer_recursion) /\
+  (N.of_nat (sl_nest ch) <= N.max (N.of_nat (sl_nest par)) max_queryer_recursion) /\
+  N.of_nat (cx_chase (sl_cx ch)) <= N.of_nat (cx_chase (sl_cx par)) + 1 /\
+  N.of_nat (cx_dname (sl_cx ch)) <= N.of_nat (cx_dname (sl_cx par)) + 1 /\
   (cx_chase (sl_cx ch) = S (cx_chase (sl_cx par)) -> N.of_nat (cx_chase (sl_cx ch)) <= max_cname_chase_depth) /\
-  (cx_dname (sl_cx ch) = S (cx_dname (sl_cx par)) -> N.of_nat (cx_dname (sl_cx ch)) <= max_dname_depth) /\
-  (cx_chase (sl_cx par) <= cx_chase (sl_cx ch) <= S (cx_chase (sl_cx par)))%nat /\
-  (cx_dname (sl_cx par) <= cx_dname (sl_cx ch) <= S (cx_dname (sl_cx par)))%nat.
+  (cx_dname (sl_cx ch) = S (cx_dname (sl_cx par)) -> N.of_nat (cx_dname (sl_cx ch)) <= max_dname_depth).
 Proof.
-  intros v6 par ch H. unfold child_ok, child_cx_ok in H.
+  intros v6 par ch H. unfold child_ok, detached_root, child_cx_ok, cx_eqb, cx_fresh in H.
+  assert (Hq : max_queryer_recursion = 32) by reflexivity. assert (Hc : max_cname_chase_depth = 10) by reflexivity.
+  assert (Hd : max_dname_depth = 10) by reflexivity. cbn in H.
   repeat match goal with
   | H : (_ && _)%bool = true |- _ => apply Bool.andb_true_iff in H; destruct H
   | H : (_ || _)%bool = true |- _ => apply Bool.orb_true_iff in H; destruct H
